@@ -33,7 +33,16 @@ Sem(ch, lo, hi, useNeg) ==
                  IF ch.ops[kS] = "+" THEN Lift2(QAdd, x, y) ELSE Lift2(QSub, x, y)
   ELSE IF kP # 0 THEN LET x == Sem(ch, lo, kP, useNeg) y == Sem(ch, kP + 1, hi, TRUE) IN
                       IF ch.ops[kP] = "*" THEN Lift2(QMul, x, y) ELSE Lift2(QDiv, x, y)
-  ELSE IF kL # 0 THEN Lift2(QPar, Sem(ch, lo, kL, useNeg), Sem(ch, kL + 1, hi, TRUE))
+  ELSE IF kL # 0 THEN
+       \* n-ary: all operands of the || chain at this level, left to right
+       LET cuts == {k \in lo..(hi - 1) : ch.ops[k] = "||"}
+           n == Cardinality(cuts) + 1
+           CutAt[j \in 0..n] == IF j = 0 THEN lo - 1 ELSE IF j = n THEN hi
+                                 ELSE CHOOSE k \in cuts : Cardinality({x \in cuts : x < k}) = j - 1
+           vals == [j \in 1..n |-> Sem(ch, CutAt[j - 1] + 1, CutAt[j], IF j = 1 THEN useNeg ELSE TRUE)]
+           firstBad == {j \in 1..n : vals[j].k # "v"}
+       IN IF firstBad # {} THEN vals[CHOOSE j \in firstBad : \A x \in firstBad : j <= x]
+          ELSE QParN([j \in 1..n |-> vals[j].q])
   ELSE IF useNeg /\ ch.neg[lo] THEN LET x == Sem(ch, lo, hi, FALSE) IN IF x.k # "v" THEN x ELSE QNeg(x.q)
   ELSE IF lo = hi THEN V(MCVarVal[Names[lo]])
   ELSE \* a tower  lo ^ (lo+1 ^ ...): right associative, the exponent carries its own sign
